@@ -190,6 +190,90 @@ func operatorPairTrees() []*minijs.Node {
 	return out
 }
 
+// bracketTrees: positions whose grammar is restricted (the callee of "new" is a MemberExpression,
+// so a "(" behind it opens the arguments of "new"; a for-header is parsed without "in") crossed with
+// every bracketed place inside them where a full Expression stands again (index brackets, array
+// and object literal elements, accessor and function bodies, arguments of an inner "new",
+// parentheses) and with payloads that the outer restriction would forbid (calls, "in", new).
+func bracketTrees() []*minijs.Node {
+	f := func() *minijs.Node { return minijs.Id("f") }
+	payloads := []func() *minijs.Node{
+		func() *minijs.Node { return minijs.N("call", f()) },
+		func() *minijs.Node { return minijs.N("call", f(), minijs.Id("x")) },
+		func() *minijs.Node { return minijs.N("call", minijs.Dot(f(), "g"), minijs.Id("x")) },
+		func() *minijs.Node { return minijs.N("call", minijs.N("call", f())) },
+		func() *minijs.Node { return minijs.N("idx", minijs.N("call", f()), minijs.Num("0")) },
+		func() *minijs.Node { return minijs.Bin("+", minijs.N("call", f()), minijs.Num("1")) },
+		func() *minijs.Node { return minijs.Bin("in", ida(), minijs.N("call", f())) },
+		func() *minijs.Node { return minijs.Cond(minijs.N("call", f()), ida(), idb()) },
+		func() *minijs.Node { return minijs.N("seq", ida(), minijs.N("call", f())) },
+		func() *minijs.Node { return minijs.Assign("=", ida(), minijs.N("call", f())) },
+		func() *minijs.Node { return minijs.Unary("!", minijs.N("call", f())) },
+		func() *minijs.Node { return minijs.Postfix("++", ida()) },
+		func() *minijs.Node { return &minijs.Node{K: "new", NoArgs: true, Kids: []*minijs.Node{f()}} },
+		func() *minijs.Node { return minijs.N("new", f(), minijs.N("call", f())) },
+		func() *minijs.Node { return minijs.N("call", minijs.N("new", f())) },
+		func() *minijs.Node {
+			return &minijs.Node{K: "func", Kids: []*minijs.Node{minijs.ExprStmt(minijs.N("call", f()))}}
+		},
+	}
+	ret := func(e *minijs.Node) *minijs.Node { return &minijs.Node{K: "return", Kids: []*minijs.Node{e}} }
+	prop := func(op string, v *minijs.Node) *minijs.Node {
+		return &minijs.Node{K: "obj", Kids: []*minijs.Node{{K: "prop", Op: op, Kids: []*minijs.Node{minijs.Id("k"), v}}}}
+	}
+	places := []func(e *minijs.Node) *minijs.Node{
+		func(e *minijs.Node) *minijs.Node { return minijs.N("idx", ida(), e) },
+		func(e *minijs.Node) *minijs.Node { return minijs.Dot(minijs.N("idx", minijs.Dot(ida(), "b"), e), "e") },
+		func(e *minijs.Node) *minijs.Node { return minijs.N("idx", minijs.N("idx", ida(), e), e) },
+		func(e *minijs.Node) *minijs.Node { return minijs.N("idx", ida(), minijs.N("idx", idb(), e)) },
+		func(e *minijs.Node) *minijs.Node { return minijs.N("idx", minijs.N("arr", e), minijs.Num("0")) },
+		func(e *minijs.Node) *minijs.Node { return minijs.N("arr", nil, e) },
+		func(e *minijs.Node) *minijs.Node { return minijs.Dot(prop("init", e), "k") },
+		func(e *minijs.Node) *minijs.Node {
+			return minijs.Dot(prop("get", &minijs.Node{K: "func", Kids: []*minijs.Node{ret(e)}}), "k")
+		},
+		func(e *minijs.Node) *minijs.Node { return &minijs.Node{K: "func", Kids: []*minijs.Node{ret(e)}} },
+		func(e *minijs.Node) *minijs.Node { return minijs.N("new", idb(), e) },
+		func(e *minijs.Node) *minijs.Node { return minijs.Dot(minijs.N("new", idb(), e), "p") },
+		func(e *minijs.Node) *minijs.Node { return e }, // bare: the renderer must add parentheses where needed
+	}
+	empty := func() *minijs.Node { return &minijs.Node{K: "empty"} }
+	decl := func(init *minijs.Node) *minijs.Node {
+		return &minijs.Node{K: "var", Kids: []*minijs.Node{{K: "decl", Name: "v", Kids: []*minijs.Node{init}}}}
+	}
+	outers := []func(m *minijs.Node) *minijs.Node{
+		func(m *minijs.Node) *minijs.Node { return minijs.ExprStmt(minijs.N("new", m, minijs.Id("x"))) },
+		func(m *minijs.Node) *minijs.Node { return minijs.ExprStmt(minijs.N("new", m)) },
+		func(m *minijs.Node) *minijs.Node {
+			return minijs.ExprStmt(&minijs.Node{K: "new", NoArgs: true, Kids: []*minijs.Node{m}})
+		},
+		func(m *minijs.Node) *minijs.Node {
+			return minijs.ExprStmt(minijs.N("call", minijs.N("new", minijs.N("new", m)))) // new new m()()  then called
+		},
+		func(m *minijs.Node) *minijs.Node {
+			return minijs.ExprStmt(minijs.Dot(&minijs.Node{K: "new", NoArgs: true, Kids: []*minijs.Node{m}}, "p"))
+		},
+		func(m *minijs.Node) *minijs.Node {
+			return &minijs.Node{K: "for", Kids: []*minijs.Node{minijs.N("new", m, minijs.Id("x")), nil, nil, empty()}}
+		},
+		func(m *minijs.Node) *minijs.Node {
+			return &minijs.Node{K: "forin", Kids: []*minijs.Node{decl(minijs.N("new", m)), minijs.Id("o"), empty()}}
+		},
+		func(m *minijs.Node) *minijs.Node {
+			return &minijs.Node{K: "var", Kids: []*minijs.Node{{K: "decl", Name: "o", Kids: []*minijs.Node{minijs.N("new", m, minijs.Id("x"))}}}}
+		},
+	}
+	var out []*minijs.Node
+	for _, o := range outers {
+		for _, pl := range places {
+			for _, pay := range payloads {
+				out = append(out, minijs.Program(o(pl(pay()))))
+			}
+		}
+	}
+	return out
+}
+
 // noInTrees: every binary operator paired with "in" inside the three NoIn positions of for-headers.
 func noInTrees() []*minijs.Node {
 	var out []*minijs.Node
@@ -238,7 +322,7 @@ func noInTrees() []*minijs.Node {
 
 var pairFacet = harness.Register(&harness.Facet[treeCase]{
 	Name: "operator-pairs",
-	Rule: "enumeration: every ordered pair of binary operators at both nestings, every same-level triple, prefix/postfix/assignment/conditional/comma against every binary operator in every operand position, assignment x assignment, unary x unary, all pairs and triples of member/index/call/new forms, every binary operator against `in` in the NoIn positions of for / for-var / for-in headers; each tree rendered three ways with fixed decoration streams and checked like the random facet; every case counts as non-trivial; distinct by JSON of the case",
+	Rule: "enumeration: every ordered pair of binary operators at both nestings, every same-level triple, prefix/postfix/assignment/conditional/comma against every binary operator in every operand position, assignment x assignment, unary x unary, all pairs and triples of member/index/call/new forms, every binary operator against `in` in the NoIn positions of for / for-var / for-in headers, every restricted position (callee of new in five shapes, for-header, for-in initialiser, var initialiser) x every bracketed place inside a callee (index, nested index, array/object literal element, getter and function body, inner-new argument, parentheses) x 16 payloads (calls, in, new, assignment, ...); each tree rendered three ways with fixed decoration streams and checked like the random facet; every case counts as non-trivial; distinct by JSON of the case",
 	Check: func(c treeCase) harness.Outcome {
 		o := checkTree(c)
 		o.Nontrivial = true
@@ -254,6 +338,9 @@ func TestOperatorPairs(t *testing.T) {
 		cases = append(cases, treeCase{Prog: p, Decor: decor, Trivia: trivia})
 	}
 	for _, p := range noInTrees() {
+		cases = append(cases, treeCase{Prog: p, Decor: decor, Trivia: trivia})
+	}
+	for _, p := range bracketTrees() {
 		cases = append(cases, treeCase{Prog: p, Decor: decor, Trivia: trivia})
 	}
 	harness.SetExhaustive(pairFacet.Name)
